@@ -26,7 +26,7 @@ from harness import core
 from harness.extract import units as EX
 
 MANIFEST_ENTRY = {
-    "text": "Lean theorems over the generator model prove, for every pair of Bernoulli outcome lists, duration, multi-emission flag and pre-simulation setting: start dates within [start - duration, end] (date_bounds), none before the period when pre-simulation emissions are off (no_presim_when_disabled), starts of a single-emission source more than `duration` apart (no_overlap_single), ids 0..n-1 unique (ids_unique), pending list popped in strictly increasing start order (generate_sorted). Over exact rationals and the unit tables regenerated from unit_converter.py on every run: gas_convert is linear (convert_linear), converts any SI-written rate back to the same g/s value for every Consistent table (unit_invariance, rate_invariance), capped rates never exceed the converted maximum (cap_respected, cap_respected_dist with the table-positivity obligation), all 56 unit pairs convert with a positive factor; the current table is proved NOT consistent (seconds per year 31 540 000: known finding F10b) and what does hold of it is proved for every quantity: both rate sources return exactly 7884/7885 (1 for per-second units) times the capped physical rate, so SI units sharing a time unit agree exactly (si_drift_all, real_table_rates, same_increment_same_rates, per_second_rates_exact); mscf converts to exactly 353147/353100 of 1000 cubic feet (Units.mscf_drift, F10d); pound, cubic feet, liter, week, month, year are within 2e-6 of their independent legal/SI definitions (Units.non_si_entries_within_tolerance); the seed-index expressions of both generation loops of initialize_emissions are extracted from the AST and proved to be the simulation number (EmisSeed.seed_index_is_simulation_number), from which seeds drawn by randint(0,255) collide for certain beyond 255 simulations and may collide before (seeds_collide_beyond_range, seeds_distinct_counterexample: known finding F10c); after any history of fresh runs, extensions and smaller runs on one generator folder simulation i holds the scenario of emis_preseed_val[i], existing pickles are untouched by an extension and distinct seeds give distinct scenarios (extension_seed_index, extension_preserves_existing, extension_distinct); a table of class-/module-level containers, caches and copy hooks of the five modelled modules is extracted on every run and must show no state that survives between cases and a Source.__reduce__ argument order equal to _reconstruct's (GenState.no_cross_case_state); for every requested count the simulation manager runs exactly the numbers 0..n-1, each once, in both execution modes (numbers_run_exactly_once over batch_simulations, table obligation SimNumber.numbering_is_standard on the expressions extracted from both run loops); C16_partial / C16_counterexample. Models are tied to the real Source.generate_emissions, gas_convert (run on exact rationals), EmissionsSource classes built by the real reader from generated emissions files in all 56 units, gen_seed_emis and initialize_emissions (single runs and multi-step folder histories with the applied seed recorded per simulation number) by differential correspondence on every run; each clause of the property is evaluated directly on the implementation outputs (calendar dates read with datetime arithmetic, boundary periods - 1/2-day, Dec 31/Jan 1, Feb 28/29, day 366, whole-year shifts - generated on purpose); same-process histories (emissions files with colliding column names in both orders against the same file loaded alone in a fresh interpreter, reused and same-named Source objects, shared input dictionaries/lists/frames, pickling round trips) and emissions files with unusual column names and shapes are run on every check; the real SimulationManager.run_simulations loops (debug and pool) are driven for many counts, and whole runs in the normal execution mode with 6/7 (thorough 11/13) simulations, the DEBUG route and a run-after-another-run history are judged from the output files and the generator folder (every number simulated once, on its own generated scenario); a crash or an unexpected shape of the real code becomes a violation with its input or a broken obligation, never an infrastructure exit.",
+    "text": "Lean theorems over the generator model prove, for every pair of Bernoulli outcome lists, duration, multi-emission flag and pre-simulation setting: start dates within [start - duration, end] (date_bounds), none before the period when pre-simulation emissions are off (no_presim_when_disabled), starts of a single-emission source more than `duration` apart (no_overlap_single), ids 0..n-1 unique (ids_unique), pending list popped in strictly increasing start order (generate_sorted). Over exact rationals and the unit tables regenerated from unit_converter.py on every run: gas_convert is linear (convert_linear), converts any SI-written rate back to the same g/s value for every Consistent table (unit_invariance, rate_invariance), capped rates never exceed the converted maximum (cap_respected, cap_respected_dist with the table-positivity obligation), all 56 unit pairs convert with a positive factor; the current table is proved NOT consistent (seconds per year 31 540 000: known finding F10b) and what does hold of it is proved for every quantity: both rate sources return exactly 7884/7885 (1 for per-second units) times the capped physical rate, so SI units sharing a time unit agree exactly (si_drift_all, real_table_rates, same_increment_same_rates, per_second_rates_exact); mscf converts to exactly 353147/353100 of 1000 cubic feet (Units.mscf_drift, F10d); pound, cubic feet, liter, week, month, year are within 2e-6 of their independent legal/SI definitions (Units.non_si_entries_within_tolerance); the seed-index expressions of both generation loops of initialize_emissions are extracted from the AST and proved to be the simulation number (EmisSeed.seed_index_is_simulation_number), from which seeds drawn by randint(0,255) collide for certain beyond 255 simulations and may collide before (seeds_collide_beyond_range, seeds_distinct_counterexample: known finding F10c); after any history of fresh runs, extensions and smaller runs on one generator folder simulation i holds the scenario of emis_preseed_val[i], existing pickles are untouched by an extension and distinct seeds give distinct scenarios (extension_seed_index, extension_preserves_existing, extension_distinct); a table of class-/module-level containers, caches and copy hooks of the five modelled modules is extracted on every run and must show no state that survives between cases and a Source.__reduce__ argument order equal to _reconstruct's (GenState.no_cross_case_state); for every requested count the simulation manager runs exactly the numbers 0..n-1, each once, in both execution modes (numbers_run_exactly_once over batch_simulations, table obligation SimNumber.numbering_is_standard on the expressions extracted from both run loops); whatever runs used the generator folder before and wherever they were killed (after check_generator_files, after setup_infrastructure, after k scenario files, or not at all), a completed run hands out only scenarios generated under its own configuration (handed_out_own_configuration, table obligation GenMarker.marker_removed_with_hashes on the removal order extracted from the source); C16_partial / C16_counterexample. Models are tied to the real Source.generate_emissions, gas_convert (run on exact rationals), EmissionsSource classes built by the real reader from generated emissions files in all 56 units, gen_seed_emis and initialize_emissions (single runs and multi-step folder histories with the applied seed recorded per simulation number) by differential correspondence on every run; each clause of the property is evaluated directly on the implementation outputs (calendar dates read with datetime arithmetic, boundary periods - 1/2-day, Dec 31/Jan 1, Feb 28/29, day 366, whole-year shifts - generated on purpose); same-process histories (emissions files with colliding column names in both orders against the same file loaded alone in a fresh interpreter, reused and same-named Source objects, shared input dictionaries/lists/frames, pickling round trips) and emissions files with unusual column names and shapes are run on every check; the real SimulationManager.run_simulations loops (debug and pool) are driven for many counts, and whole runs in the normal execution mode with 6/7 (thorough 11/13) simulations, the DEBUG route and a run-after-another-run history are judged from the output files and the generator folder (every number simulated once, on its own generated scenario); set-up histories on a real SimulationManager with kill points between the steps are run over configurations differing in one clause-relevant leaf, and every clause is evaluated on the scenarios the last run hands to its simulations against its own parameters; a crash or an unexpected shape of the real code becomes a violation with its input or a broken obligation, never an infrastructure exit.",
     "design_ref": "DESIGN.md 5.16",
     "note": "trusted: Lean kernel + propext/Classical.choice/Quot.sound; hand-written models tied by sampled correspondence; the ast extractor of the unit tables (cross-checked against the imported module on every run); float results of the rate-source classes are compared with the exact model inside a rounding envelope of 2^-40 relative (the function itself is compared exactly on rationals); non-SI units (pound, cubic feet, week, month, year) are written as defined by the table, whose entries are bounded against independent definitions at 2e-6 (Lean obligation + harness check), mscf as 1000 cubic feet; a unit deviation is filed under a known finding only when its ratio equals the proved drift within 1e-9; the injectivity seed -> scenario assumed by distinct_scenarios_partial / extension_distinct is measured (evidence: injectivity_assumption) and fails by construction for production rate 0; distributional correctness of the draws and of scipy/numpy is outside this check; 'different scenarios' is checked as distinct seeds + observed scenario inequality on non-degenerate configurations",
     "technique": "Lean 4 proofs over an executable generator / converter model + tables regenerated from source + differential correspondence with the real classes + direct oracle",
@@ -437,7 +437,7 @@ def gen_cases(ctx):
     rng = ctx.rng
     cases = []
     ps = [0.0, 1.0, 0.5, 0.5, 0.3, 0.8, 0.1]
-    for _ in range(ctx.pick(28000, 300000)):
+    for _ in range(ctx.pick(28000, 240000)):
         cases.append((rng.randint(0, 5), rng.random() < 0.4, rng.random() < 0.7, rng.randint(1, 8),
                       rng.choice(ps), rng.randrange(2 ** 31), rng.random() < 0.7, rng.random() < 0.8,
                       rng.choice(BOUNDARY_STARTS) if rng.random() < 0.3 else None))
@@ -1447,7 +1447,7 @@ def run_setup_histories(ctx, G, M, tmp):
     from harness import wholerun as W
     rng = ctx.rng
     n = 0
-    for rnd in range(ctx.pick(1, 4)):
+    for rnd in range(ctx.pick(1, 2)):
         A = W.make_config(rng, n_sims=rng.choice([2, 3]), ndays=120, n_sites=3, programs=[{"name": "P_none", "methods": []}],
                           pre_sim_emissions=(rnd % 2 == 0))
         A["rep"]["epr"], A["nonrep"]["epr"] = 0.03125, 0.015625       # enough emissions for the clauses to bite
@@ -1457,12 +1457,12 @@ def run_setup_histories(ctx, G, M, tmp):
             kills = kills_all if not ctx.quick else ["i", rng.choice(["f1", "c", f"f{nA}", "m"])]
             for k in kills:
                 setup_history_case(ctx, G, M, tmp, f"{n}", [(A, "x"), (B, k), (B, "x")], what); n += 1
-            for k in (kills_all if not ctx.quick else [rng.choice(["i", "f1"])]):
+            for k in (["i", "f1", "m"] if not ctx.quick else [rng.choice(["i", "f1"])]):
                 setup_history_case(ctx, G, M, tmp, f"{n}", [(A, "x"), (B, k), (A, "x")], what); n += 1
         for k in (kills_all if not ctx.quick else ["i", "f1"]):
             setup_history_case(ctx, G, M, tmp, f"{n}", [(A, k), (A, "x")], "same-configuration"); n += 1
         vs = c16_variants(A)
-        for _ in range(ctx.pick(6, 40)):
+        for _ in range(ctx.pick(6, 20)):
             pool = [A] + [v for _, v in rng.sample(vs, 2)]
             runs = [(rng.choice(pool), rng.choice(["c", "i", "f0", "f1", "f2", "m", "x", "x"])) for _ in range(rng.randint(2, 5))]
             runs.append((rng.choice(pool), "x"))
